@@ -163,8 +163,6 @@ def inline_single_sets(N, ast) -> int:
             if any(isinstance(x, N.Filter) and "unique" in x.name for x in subs):
                 continue
             mapping[name] = e
-        if not mapping:
-            continue
         # resolve chains (x = y + 1, y = t.a): substitute inside the bound expressions first, innermost definitions first
         for _ in range(4):
             for name, e in list(mapping.items()):
